@@ -50,6 +50,7 @@ def cases(tier, seed):
             for d in range(1, 8):
                 yield {'conv': name, 'fault': 'disconnect-at-loop-head', 'at': i, 'dev': d}
             yield {'conv': name, 'fault': 'reset', 'at': i}
+            yield {'conv': name, 'fault': 'send-fails', 'at': i}
 
 
 def domain(tier):
@@ -58,6 +59,9 @@ def domain(tier):
 
 def run_case(case):
     common.import_repo()
+    if 'scenario' in case:
+        from . import c13_stack
+        return c13_stack.run_case(case)
     name, fault, at = case['conv'], case['fault'], case['at']
     role, items = flat(name)
     hist = []
@@ -108,6 +112,10 @@ def run_case(case):
             hist += [('tick', 4.0), ('tick', 4.0), ('tick', 2.5)]
         elif fault == 'reset':
             hist.append(('reset',))
+        elif fault == 'send-fails':
+            # the connection died unnoticed; the local user's next primitive makes the provider write to it
+            nxt = [p for k, p, ri in items[at:] if k == 'user'][:1]
+            hist += [('gone',), ('user', nxt[0] if nxt else ('abort', 0, 0)), ('reset',)]
         else:
             hist.append(('close',))
             dev = {case['dev']: True}
@@ -124,11 +132,13 @@ def run_case(case):
     indicated = any(x[0] in ('A-ASSOCIATE-RQ', 'A-ASSOCIATE-AC') for x in inds)
     gone = [x for x in inds if x[0] in ('A-ABORT', 'A-RELEASE-RP', 'A-ASSOCIATE-RJ')]
     states_at = [st.get('state') for st in env.steps]
-    if fault in ('disconnect-after-prefix', 'disconnect-at-loop-head', 'reset'):
+    if fault in ('disconnect-after-prefix', 'disconnect-at-loop-head', 'reset', 'send-fails'):
         if fin['state'] != 0 or fin['sock'] == 'open' or fin['timer']:
             viol.append((sig + ':not-idle', 'after the peer disconnected: Sta%d, transport %s, ARTIM %s (%s)' % (
                 fin['state'] + 1, fin['sock'], 'running' if fin['timer'] else 'stopped', where)))
         needs = indicated and not local_ended and not any(x[0] == 'A-RELEASE-RP' for x in inds)
+        if fault == 'send-fails' and hist[-2][1][0] in ('abort', 'release_rp', 'reject'):
+            needs = False
         if needs and not any(x[0] in ('A-ABORT',) for x in inds):
             viol.append((sig + ':user-not-told', 'an association had been indicated but no abort indication followed the disconnect; indications %r (%s)' % (inds, where)))
         if not indicated and any(x[0] == 'A-ABORT' for x in inds) and role == 'ac':
